@@ -206,6 +206,28 @@ def gen(rng, nm, na):
             c["n_inc_first"] = first_n
             c.pop("single", None)
         cases.append(c)
+    for q in range(max(3, (nm + na) // 15)):
+        # targeted: a fault inside a support-mode microgrid first (on its connecting line, or behind its disconnector), then a
+        # fault in the hosting feeder while the microgrid still lists a failed section of its own: the microgrid has to wait for
+        # the feeder's sectioning time as well
+        ctrl = "manual" if q % 3 != 2 else "main"
+        while True:
+            c = ctl.gen_scenario(rng, max_lines=4, ctrl=ctrl, nfeed=1)
+            if c["spec"].get("mg"):
+                break
+        c["spec"]["mg"]["n"] = rng.choice([2, 3]); c["spec"]["mg"]["discon"] = True
+        c["spec"]["mg"]["mode"] = rng.choice(["full", "limited"])
+        dtq = F(c["dt"])
+        c["spec"]["ctrl"]["T"] = str(dtq * rng.choice([1, 2, 2, 3]))
+        Tq = F(c["spec"]["ctrl"]["T"])
+        ps = net.build(c["spec"])
+        d_lines = [l.name for l in ps.lines if l.name.startswith("F0")]
+        k1 = rng.randint(1, 3)
+        mgline = rng.choice(["ML0", "ML1"])
+        k2 = k1 + rng.randint(1, max(1, int(Tq / dtq)))
+        c["faults"] = {str(k1): [[mgline, str(Tq + rng.choice([3, 4]) * dtq + 2)]], str(k2): [[rng.choice(d_lines), str(rng.choice([F(2), F(3)]))]]}
+        c["n_inc"] = k2 + int((2 * Tq + 8) / dtq) + 10
+        cases.append(c)
     return cases
 
 
